@@ -40,8 +40,13 @@ Definition run_script (sc : script) : fetcher := fun asked =>
 Definition msgT := (Z * bytes)%type.
 Definition sig_entry (j : json) : option (Z * bytes * bytes) :=
   match j with JArr [i; k; key] => Some (jz i, jsb k, jsb key) | _ => None end.
+(* poison = indices of messages (documents) holding a signature entry that does not decode; the
+   table lists what verifies on its own, and an undecodable entry elsewhere spoils it unless the
+   source decodes per entry *)
+Definition poisoned (cfg : json) (i : Z) : bool := existsb (fun j => jz j =? i) (ga (bs "poison") cfg).
 Definition sig_table (cfg : json) : list (Z * bytes * bytes) :=
-  flat_map (fun j => match sig_entry j with Some e => [e] | None => [] end) (ga (bs "sig") cfg).
+  filter (fun e => signatures_per_entry || negb (poisoned cfg (fst (fst e))))
+         (flat_map (fun j => match sig_entry j with Some e => [e] | None => [] end) (ga (bs "sig") cfg)).
 Definition tbl_vj (tbl : list (Z * bytes * bytes)) (server kid key : bytes) (m : msgT) : bool :=
   existsb (fun e => match e with (i, k, ky) => (i =? fst m) && bytes_eqb k kid && bytes_eqb ky key end) tbl.
 Definition raw_kids (server : bytes) (m : msgT) : option (list bytes) := list_key_ids server (snd m).
@@ -312,8 +317,9 @@ Definition doc_at (docs : list (option (server_keys docT))) (i : Z) : option (se
   match nth_error docs (Z.to_nat i) with Some (Some d) => Some d | _ => None end.
 
 Definition doc_sig_table (cfg : json) : list (Z * bytes * bytes * bytes) :=
-  flat_map (fun j => match j with JArr [i; n; k; key] => [(jz i, jsb n, jsb k, unhex (jsb key))] | _ => [] end)
-           (ga (bs "sig") cfg).
+  filter (fun e => signatures_per_entry || negb (poisoned cfg (fst (fst (fst e)))))
+         (flat_map (fun j => match j with JArr [i; n; k; key] => [(jz i, jsb n, jsb k, unhex (jsb key))] | _ => [] end)
+                   (ga (bs "sig") cfg)).
 Definition doc_vj (tbl : list (Z * bytes * bytes * bytes)) (name kid key : bytes) (m : docT) : bool :=
   existsb (fun e => match e with (i, n, k, ky) =>
              (i =? fst m) && bytes_eqb n name && bytes_eqb k kid && bytes_eqb ky key end) tbl.
